@@ -69,6 +69,13 @@ class _Tr:
 
     def new(self, node: ast.stmt, kind: str) -> None:
         self.sid += 1
+        # statement granularity: the head of a guard statement touches the shared attribute exactly once
+        # (tests and the assignment) or not at all (raise, with)
+        head = [node.test] if isinstance(node, ast.If) else [*node.targets, node.value] if isinstance(node, ast.Assign) \
+            else [node.exc] if isinstance(node, ast.Raise) else [i.context_expr for i in node.items]
+        n_acc = sum(1 for h in head for m in ast.walk(h) if isinstance(m, ast.Attribute) and m.attr == OWNER_ATTR)
+        if n_acc != (1 if kind in ('TestNone', 'TestNeq', 'Set') else 0):
+            raise Untranslatable(f'line {node.lineno}: {n_acc} accesses to {OWNER_ATTR} in one statement head')
         # every physical line of the statement head maps to the statement (multi-line raise / call)
         last = node.end_lineno or node.lineno
         if isinstance(node, (ast.If, ast.With)):
